@@ -21,7 +21,7 @@ Definition written_by (W : ghost) (y xl xr : Z) : ghost :=
   fun x' y' => W x' y' || ((y' =? y) && (xl <=? x') && (x' <=? xr)).
 
 Section Flood.
-Variables (v : bounds) (fill border : Z) (m0 : bitmap) (sx sy : Z).
+Variables (v : bounds) (p : pat) (border : Z) (m0 : bitmap) (sx sy : Z).
 Hypothesis Hcov : covers m0 v.
 Hypothesis Hseed : open m0 v border sx sy.
 
@@ -32,23 +32,30 @@ Local Notation open0 := (open m0 v border).
 Definition samerun (y x1 x2 : Z) : Prop :=
   forall i, Z.min x1 x2 <= i <= Z.max x1 x2 -> open0 i y.
 
-Record inv (W : ghost) (m : bitmap) (wl : list seedt) : Prop := {
+(* soundness part of the invariant: holds for every pattern *)
+Record sinv (W : ghost) (m : bitmap) (wl : list seedt) : Prop := {
   i_cov : covers m v;
   i_wreg : forall x y, W x y = true -> reg x y;
-  i_wfill : forall x y, W x y = true -> pix m x y = fill;
+  i_wfill : forall x y, W x y = true -> pix m x y = tile_at p x y;
   i_unw : forall x y, W x y = false -> pix m x y = pix m0 x y;
-  i_dich : forall x y, open0 x y -> open0 (x + 1) y -> W x y = W (x + 1) y;
   i_ent : forall xs xe y d, In (xs, xe, y, d) wl ->
-            xs <= xe /\ (d = 0 \/ d = 1 \/ d = -1) /\ (forall i, xs <= i <= xe -> reg i y);
+            xs <= xe /\ (d = 0 \/ d = 1 \/ d = -1) /\ (forall i, xs <= i <= xe -> reg i y)
+}.
+
+(* completeness / termination part: preserved when "the run shows the tile" is the whole stop condition *)
+Record xinv (W : ghost) (m : bitmap) (wl : list seedt) : Prop := {
+  i_dich : forall x y, open0 x y -> open0 (x + 1) y -> W x y = W (x + 1) y;
   i_back : forall xs xe y d, In (xs, xe, y, d) wl -> d <> 0 ->
             forall i, xs <= i <= xe -> W i (y - d) = true;
   i_vert : forall x y d', W x y = true -> (d' = 1 \/ d' = -1) -> by0 v <= y + d' <= by1 v ->
-            closed m fill border x (y + d') \/ covered wl x (y + d');
+            closed m p border x (y + d') \/ covered wl x (y + d');
   i_lifo : forall above xs xe y d below, wl = above ++ (xs, xe, y, d) :: below -> W xs y = true ->
             forall x d', samerun y xs x -> (d' = 1 \/ d' = -1) -> by0 v <= y + d' <= by1 v ->
-            closed m fill border x (y + d') \/ covered above x (y + d');
+            closed m p border x (y + d') \/ covered above x (y + d');
   i_seed : W sx sy = true \/ covered wl sx sy
 }.
+
+Definition inv (W : ghost) (m : bitmap) (wl : list seedt) : Prop := sinv W m wl /\ xinv W m wl.
 
 Definition unwritten (W : ghost) : Z :=
   count_rows W (bx0 v) (Z.to_nat (bx1 v - bx0 v + 1)) (by0 v) (Z.to_nat (by1 v - by0 v + 1)).
@@ -75,13 +82,15 @@ Qed.
 (* ================================================================ one iteration *)
 Section Step.
 Variables (W : ghost) (m : bitmap) (xs xe y d : Z) (rest : list seedt).
-Hypothesis Hinv : inv W m ((xs, xe, y, d) :: rest).
+Hypothesis Hinv : sinv W m ((xs, xe, y, d) :: rest).
+Hypothesis Hx : xinv W m ((xs, xe, y, d) :: rest).
+Hypothesis Hplain : stops_on_tile p.
 Variables (xl xr : Z) (news : list seedt).
 Hypothesis Hxl : xl = extend_left v m border xs y.
 Hypothesis Hxr : xr = extend_right v m border xe y.
-Hypothesis Hadj : adj_ok v m fill border xs xe y d xl xr news.
+Hypothesis Hadj : adj_ok v m p border xs xe y d xl xr news.
 
-Local Notation m' := (fill_range m y xl xr fill).
+Local Notation m' := (tile_range m y xl xr (fun x => tile_at p x y)).
 Local Notation W' := (written_by W y xl xr).
 
 Lemma head_entry : xs <= xe /\ (d = 0 \/ d = 1 \/ d = -1) /\ (forall i, xs <= i <= xe -> reg i y).
@@ -112,7 +121,7 @@ Proof. rewrite Hxr. apply extend_right_spec. apply head_view. Qed.
 
 Lemma run_view i : xl <= i <= xr -> in_view v i y = true.
 Proof.
-  intro Hi. pose proof head_view. destruct ext_left as (? & _), ext_right as (? & _).
+  intro Hi. pose proof head_view as Hhv0. destruct ext_left as (? & _), ext_right as (? & _).
   apply in_view_iff. lia.
 Qed.
 
@@ -149,8 +158,8 @@ Proof. intro Hi. apply (region_open m0 v border sx sy), run_reg, Hi. Qed.
 Lemma run_W i : xl <= i <= xr -> W i y = W xs y.
 Proof.
   intro Hi. destruct ext_left as (Hl & _), ext_right as (Hr & _). destruct head_entry as (Hse & _).
-  rewrite (dich_range W (i_dich _ _ _ Hinv) y xl xr (fun j Hj => run_open j Hj) i Hi).
-  symmetry. apply (dich_range W (i_dich _ _ _ Hinv) y xl xr (fun j Hj => run_open j Hj)). lia.
+  rewrite (dich_range W (i_dich _ _ _ Hx) y xl xr (fun j Hj => run_open j Hj) i Hi).
+  symmetry. apply (dich_range W (i_dich _ _ _ Hx) y xl xr (fun j Hj => run_open j Hj)). lia.
 Qed.
 
 (* the extended interval is maximal: a run-mate of one of its cells is in it, provided the run is unwritten *)
@@ -166,7 +175,7 @@ Proof.
     assert (HWt : W (xl - 1) y = true).
     { destruct (W (xl - 1) y) eqn:E; [reflexivity|exfalso].
       destruct Ho as [_ Ho]. apply Ho. now rewrite <- (i_unw _ _ _ Hinv _ _ E). }
-    pose proof (i_dich _ _ _ Hinv (xl - 1) y Ho) as Hd.
+    pose proof (i_dich _ _ _ Hx (xl - 1) y Ho) as Hd.
     replace (xl - 1 + 1) with xl in Hd by lia.
     rewrite Hd in HWt by (apply run_open; lia).
     rewrite run_W in HWt by lia. congruence. }
@@ -178,13 +187,13 @@ Proof.
     assert (HWt : W (xr + 1) y = true).
     { destruct (W (xr + 1) y) eqn:E; [reflexivity|exfalso].
       destruct Ho as [_ Ho]. apply Ho. now rewrite <- (i_unw _ _ _ Hinv _ _ E). }
-    pose proof (i_dich _ _ _ Hinv xr y (run_open xr ltac:(lia)) Ho) as Hd.
+    pose proof (i_dich _ _ _ Hx xr y (run_open xr ltac:(lia)) Ho) as Hd.
     rewrite <- Hd in HWt. rewrite run_W in HWt by lia. congruence. }
   lia.
 Qed.
 
 (* ---- the new bitmap and the new ghost set *)
-Lemma pix_in i : xl <= i <= xr -> pix m' i y = fill.
+Lemma pix_in i : xl <= i <= xr -> pix m' i y = tile_at p i y.
 Proof.
   intro Hi. rewrite pix_fill_range.
   rewrite (i_cov _ _ _ Hinv i y (run_view i Hi)), Z.eqb_refl.
@@ -192,8 +201,13 @@ Proof.
   assert ((i <=? xr) = true) as -> by (apply Z.leb_le; lia). reflexivity.
 Qed.
 
-Lemma pix_cases x' y' : pix m' x' y' = fill \/ pix m' x' y' = pix m x' y'.
-Proof. rewrite pix_fill_range. destruct (_ && _); auto. Qed.
+Lemma pix_cases x' y' : pix m' x' y' = tile_at p x' y' \/ pix m' x' y' = pix m x' y'.
+Proof.
+  rewrite pix_fill_range.
+  destruct (inb m x' y'); [|now right]. cbn [andb].
+  destruct (y' =? y) eqn:E; [|now right]. apply Z.eqb_eq in E. subst y'.
+  destruct (_ && _); auto.
+Qed.
 
 Lemma pix_out x' y' : ~ (y' = y /\ xl <= x' <= xr) -> pix m' x' y' = pix m x' y'.
 Proof.
@@ -204,7 +218,7 @@ Proof.
   apply Z.eqb_eq in E1. apply Z.leb_le in E2, E3. exfalso. apply Hn. lia.
 Qed.
 
-Lemma closed_mono x' y' : closed m fill border x' y' -> closed m' fill border x' y'.
+Lemma closed_mono x' y' : closed m p border x' y' -> closed m' p border x' y'.
 Proof.
   unfold closed. intros Hc. destruct (pix_cases x' y') as [H|H]; [now right|now rewrite H].
 Qed.
@@ -235,61 +249,80 @@ Qed.
 
 (* every neighbour above/below the extended interval is closed afterwards, or has just been pushed *)
 Lemma neighbours i d' : xl <= i <= xr -> (d' = 1 \/ d' = -1) -> by0 v <= y + d' <= by1 v ->
-  closed m' fill border i (y + d') \/ covered news i (y + d').
+  closed m' p border i (y + d') \/ covered news i (y + d').
 Proof.
   intros Hi Hd' Hy.
-  destruct (ao_all _ _ _ _ _ _ _ _ _ _ _ Hadj i d' Hi Hd' Hy) as [Hc|[Hc|(Hd0 & -> & Hx)]].
+  destruct (ao_all _ _ _ _ _ _ _ _ _ _ _ Hadj i d' Hi Hd' Hy) as [Hc|[Hc|(Hd0 & -> & Hxi)]].
   - left. now apply closed_mono.
   - now right.
   - left. apply closed_mono. right.
     replace (y + - d) with (y - d) by lia.
-    apply (i_wfill _ _ _ Hinv). apply (i_back _ _ _ Hinv xs xe y d); [now left|exact Hd0|exact Hx].
+    apply (i_wfill _ _ _ Hinv). apply (i_back _ _ _ Hx xs xe y d); [now left|exact Hd0|exact Hxi].
 Qed.
 
-(* entries just pushed: shape, region membership, unwritten *)
-Lemma news_entry e : In e news -> exists a b d', e = (a, b, y + d', d') /\ (d' = 1 \/ d' = -1) /\
-  xl <= a /\ a <= b /\ b <= xr /\ (forall i, a <= i <= b -> reg i (y + d')) /\ W a (y + d') = false.
+(* entries just pushed: shape and region membership *)
+Lemma news_region e : In e news -> exists a b d', e = (a, b, y + d', d') /\ (d' = 1 \/ d' = -1) /\
+  xl <= a /\ a <= b /\ b <= xr /\ (forall i, a <= i <= b -> reg i (y + d')) /\
+  has_same m p (y + d') a (b - a + 1) = false.
 Proof.
   intro He.
   destruct (ao_each _ _ _ _ _ _ _ _ _ _ _ Hadj e He)
-    as (a & b & d' & -> & Hd' & Hy & Ha1 & Ha2 & Ha3 & Hnb & (i0 & Hi0 & Hnf)).
+    as (a & b & d' & -> & Hd' & Hy & Ha1 & Ha2 & Ha3 & Hnb & Hnf).
   exists a, b, d'. split; [reflexivity|]. split; [exact Hd'|]. split; [exact Ha1|].
-  split; [exact Ha2|]. split; [exact Ha3|].
+  split; [exact Ha2|]. split; [exact Ha3|]. split; [|exact Hnf].
   assert (Hop : forall i, a <= i <= b -> open0 i (y + d')).
   { intros i Hi. apply nonborder_open; [|apply Hnb, Hi].
     pose proof (run_view i ltac:(lia)) as Hv. apply in_view_iff in Hv. apply in_view_iff. lia. }
-  split.
-  - intros i Hi. apply (region_step _ _ _ _ _ i y); [apply run_reg; lia| |apply Hop, Hi].
-    right. split; [reflexivity|]. destruct Hd' as [->| ->]; [left|right]; lia.
-  - destruct (W a (y + d')) eqn:E; [exfalso|reflexivity].
-    apply Hnf. apply (i_wfill _ _ _ Hinv).
-    rewrite (dich_range W (i_dich _ _ _ Hinv) (y + d') a b Hop i0 Hi0). exact E.
+  intros i Hi. apply (region_step _ _ _ _ _ i y); [apply run_reg; lia| |apply Hop, Hi].
+  right. split; [reflexivity|]. destruct Hd' as [->| ->]; [left|right]; lia.
 Qed.
 
-Lemma step_preserves : inv W' m' (news ++ rest).
+(* ... and they are unwritten *)
+Lemma news_entry e : In e news -> exists a b d', e = (a, b, y + d', d') /\ (d' = 1 \/ d' = -1) /\
+  xl <= a /\ a <= b /\ b <= xr /\ (forall i, a <= i <= b -> reg i (y + d')) /\ W a (y + d') = false.
+Proof.
+  intro He. destruct (news_region e He) as (a & b & d' & -> & Hd' & Ha1 & Ha2 & Ha3 & Hr' & Hnf).
+  exists a, b, d'. repeat split; auto.
+  destruct (not_same_cell m p (y + d') a b Hplain Ha2 Hnf) as (i0 & Hi0 & Hne).
+  destruct (W a (y + d')) eqn:E; [exfalso|reflexivity].
+  apply Hne. apply (i_wfill _ _ _ Hinv).
+  rewrite (dich_range W (i_dich _ _ _ Hx) (y + d') a b
+             (fun j Hj => region_open m0 v border sx sy _ _ (Hr' j Hj)) i0 Hi0). exact E.
+Qed.
+
+(* the soundness part is preserved for every pattern *)
+Lemma step_sound : sinv W' m' (news ++ rest).
+Proof.
+  constructor.
+  - apply covers_fill_range, (i_cov _ _ _ Hinv).
+  - intros x' y' H. apply W'_cases in H as [H|(-> & H)]; [apply (i_wreg _ _ _ Hinv), H | now apply run_reg].
+  - intros x' y' H. apply W'_cases in H as [H|(-> & H)]; [|now apply pix_in].
+    destruct (pix_cases x' y') as [Hp|Hp]; [exact Hp|]. rewrite Hp. apply (i_wfill _ _ _ Hinv), H.
+  - intros x' y' H.
+    assert (Hn : ~ (y' = y /\ xl <= x' <= xr)).
+    { intros (-> & Hx'). rewrite W'_in in H by exact Hx'. discriminate. }
+    rewrite pix_out by exact Hn. apply (i_unw _ _ _ Hinv). now rewrite <- (W'_out _ _ Hn).
+  - intros xs' xe' y' d'' Hin. apply in_app_or in Hin as [Hin|Hin].
+    + destruct (news_region _ Hin) as (a & b & d' & Heq & Hd' & Ha1 & Ha2 & Ha3 & Hr' & _).
+      assert (xs' = a /\ xe' = b /\ y' = y + d' /\ d'' = d') as (-> & -> & -> & ->)
+        by (repeat split; congruence).
+      split; [exact Ha2|]. split; [lia|exact Hr'].
+    + apply (i_ent _ _ _ Hinv). now right.
+Qed.
+
+Lemma step_x : xinv W' m' (news ++ rest).
 Proof.
   pose proof head_view as Hhv. destruct head_entry as (Hse & Hd & Hreg).
   destruct ext_left as (Hl & Hlnb & Hlstop), ext_right as (Hr & Hrnb & Hrstop).
   constructor.
-  - (* covers *) apply covers_fill_range, (i_cov _ _ _ Hinv).
-  - (* written cells are in the region *)
-    intros x' y' H. apply W'_cases in H as [H|(-> & H)]; [apply (i_wreg _ _ _ Hinv), H | now apply run_reg].
-  - (* written cells hold the fill attribute *)
-    intros x' y' H. apply W'_cases in H as [H|(-> & H)]; [|now apply pix_in].
-    destruct (pix_cases x' y') as [Hp|Hp]; [exact Hp|]. rewrite Hp. apply (i_wfill _ _ _ Hinv), H.
-  - (* unwritten cells are untouched *)
-    intros x' y' H.
-    assert (Hn : ~ (y' = y /\ xl <= x' <= xr)).
-    { intros (-> & Hx). rewrite W'_in in H by exact Hx. discriminate. }
-    rewrite pix_out by exact Hn. apply (i_unw _ _ _ Hinv). now rewrite <- (W'_out _ _ Hn).
   - (* dichotomy along runs *)
     intros x' y' Ho1 Ho2.
-    destruct (Z.eq_dec y' y) as [->|Hy]; [|rewrite !W'_out by lia; now apply (i_dich _ _ _ Hinv)].
+    destruct (Z.eq_dec y' y) as [->|Hy]; [|rewrite !W'_out by lia; now apply (i_dich _ _ _ Hx)].
     pose proof (open0_view _ _ Ho1) as Hv1. pose proof (open0_view _ _ Ho2) as Hv2.
     destruct (Z_lt_ge_dec (x' + 1) xl) as [C1|C1];
-      [rewrite !W'_out by lia; now apply (i_dich _ _ _ Hinv)|].
+      [rewrite !W'_out by lia; now apply (i_dich _ _ _ Hx)|].
     destruct (Z_lt_ge_dec xr x') as [C2|C2];
-      [rewrite !W'_out by lia; now apply (i_dich _ _ _ Hinv)|].
+      [rewrite !W'_out by lia; now apply (i_dich _ _ _ Hx)|].
     destruct (Z.eq_dec (x' + 1) xl) as [C3|C3].
     { (* x' = xl - 1 is a border cell now, hence written *)
       rewrite (W'_in (x' + 1)) by lia. apply W'_mono.
@@ -302,24 +335,17 @@ Proof.
       destruct Ho2 as [_ Ho2]. apply Ho2. rewrite <- (i_unw _ _ _ Hinv _ _ E).
       rewrite C4. apply Hrstop. lia. }
     rewrite !W'_in by lia. reflexivity.
-  - (* entries *)
-    intros xs' xe' y' d'' Hin. apply in_app_or in Hin as [Hin|Hin].
-    + destruct (news_entry _ Hin) as (a & b & d' & Heq & Hd' & Ha1 & Ha2 & Ha3 & Hr' & _).
-      assert (xs' = a /\ xe' = b /\ y' = y + d' /\ d'' = d') as (-> & -> & -> & ->)
-        by (repeat split; congruence).
-      split; [exact Ha2|]. split; [lia|exact Hr'].
-    + apply (i_ent _ _ _ Hinv). now right.
   - (* the row behind an entry is written *)
     intros xs' xe' y' d'' Hin Hd0 i Hi. apply in_app_or in Hin as [Hin|Hin].
     + destruct (news_entry _ Hin) as (a & b & d' & Heq & Hd' & Ha1 & Ha2 & Ha3 & _).
       assert (xs' = a /\ xe' = b /\ y' = y + d' /\ d'' = d') as (-> & -> & -> & ->)
         by (repeat split; congruence).
       replace (y + d' - d') with y by lia. apply W'_in. lia.
-    + apply W'_mono. apply (i_back _ _ _ Hinv xs' xe' y' d''); auto. now right.
+    + apply W'_mono. apply (i_back _ _ _ Hx xs' xe' y' d''); auto. now right.
   - (* vertical neighbours of written cells *)
     intros x' y' d' H Hd' Hy.
     apply W'_cases in H as [H|(-> & H)].
-    + destruct (i_vert _ _ _ Hinv x' y' d' H Hd' Hy) as [Hc|(a & b & dd & [Hin|Hin] & Hab)].
+    + destruct (i_vert _ _ _ Hx x' y' d' H Hd' Hy) as [Hc|(a & b & dd & [Hin|Hin] & Hab)].
       * left. now apply closed_mono.
       * (* pending in the popped entry: written now *)
         assert (a = xs /\ b = xe /\ y' + d' = y) as (-> & -> & Hyy) by (repeat split; congruence).
@@ -329,11 +355,11 @@ Proof.
   - (* stack discipline *)
     intros above xs' xe' y' d'' below Heq HW x d' Hsr Hd' Hy.
     assert (Case2 : forall l, above = news ++ l -> rest = l ++ (xs', xe', y', d'') :: below ->
-                    closed m' fill border x (y' + d') \/ covered above x (y' + d')).
+                    closed m' p border x (y' + d') \/ covered above x (y' + d')).
     { intros l Ha Hr'.
       destruct (W xs' y') eqn:E.
       - (* the run of this entry was written before: old stack invariant, the popped entry is written now *)
-        destruct (i_lifo _ _ _ Hinv ((xs, xe, y, d) :: l) xs' xe' y' d'' below
+        destruct (i_lifo _ _ _ Hx ((xs, xe, y, d) :: l) xs' xe' y' d'' below
                     ltac:(cbn [app]; now rewrite Hr') E x d' Hsr Hd' Hy)
           as [Hc|(a & b & dd & [Hin|Hin] & Hab)].
         + left. now apply closed_mono.
@@ -343,8 +369,8 @@ Proof.
       - (* the run of this entry is written by this very iteration *)
         apply W'_cases in HW as [HW|(-> & HW)]; [congruence|].
         assert (HWf : W xs y = false) by (rewrite <- (run_W xs') by exact HW; exact E).
-        pose proof (run_maximal xs' x HWf HW Hsr) as Hx.
-        destruct (neighbours x d' Hx Hd' Hy) as [Hc|Hc]; [now left|].
+        pose proof (run_maximal xs' x HWf HW Hsr) as Hxr0.
+        destruct (neighbours x d' Hxr0 Hd' Hy) as [Hc|Hc]; [now left|].
         right. rewrite Ha. apply covered_app. now left. }
     apply app_eq_app in Heq as (l & [(Hn & Hb)|(Ha & Hr')]).
     + destruct l as [|e l].
@@ -359,7 +385,7 @@ Proof.
         rewrite W'_out in HW by lia. congruence.
     + now apply (Case2 l).
   - (* the seed *)
-    destruct (i_seed _ _ _ Hinv) as [H|(a & b & dd & [Hin|Hin] & Hab)].
+    destruct (i_seed _ _ _ Hx) as [H|(a & b & dd & [Hin|Hin] & Hab)].
     + left. now apply W'_mono.
     + assert (a = xs /\ b = xe /\ sy = y) as (-> & -> & ->) by (repeat split; congruence).
       left. apply W'_in. lia.
@@ -375,8 +401,8 @@ Proof.
   destruct (W xs y) eqn:E.
   - (* the run was written before: everything around it is closed, nothing is pushed *)
     assert (Hnil : news = []).
-    { apply (adj_ok_closed _ _ _ _ _ _ _ _ _ _ _ Hadj). intros i d' Hi Hd' Hy.
-      destruct (i_lifo _ _ _ Hinv [] xs xe y d rest eq_refl E i d') as [Hc|Hc]; auto.
+    { apply (adj_ok_closed _ _ _ _ _ _ _ _ _ _ _ Hplain Hadj). intros i d' Hi Hd' Hy.
+      destruct (i_lifo _ _ _ Hx [] xs xe y d rest eq_refl E i d') as [Hc|Hc]; auto.
       - intros j Hj. apply run_open. lia.
       - exfalso. exact (covered_nil _ _ Hc). }
     rewrite Hnil. cbn [length].
@@ -396,10 +422,10 @@ Qed.
 
 End Step.
 
-Lemma step_inv W m xs xe y d rest :
-  inv W m ((xs, xe, y, d) :: rest) ->
-  exists W' m' wl', step v fill border m (xs, xe, y, d) rest = Some (m', wl') /\ inv W' m' wl' /\
-                    potential W' wl' <= potential W ((xs, xe, y, d) :: rest) - 1.
+(* one iteration, soundness part only: every pattern *)
+Lemma step_sinv W m xs xe y d rest :
+  sinv W m ((xs, xe, y, d) :: rest) ->
+  exists W' m' wl', step v p border m (xs, xe, y, d) rest = Some (m', wl') /\ sinv W' m' wl'.
 Proof.
   intro Hinv.
   set (xl := extend_left v m border xs y). set (xr := extend_right v m border xe y).
@@ -407,52 +433,90 @@ Proof.
   destruct (head_entry W m xs xe y d rest Hinv) as (Hse & Hd & _).
   destruct (ext_left W m xs xe y d rest Hinv xl eq_refl) as (Hl & _).
   destruct (ext_right W m xs xe y d rest Hinv xr eq_refl) as (Hr & _).
-  destruct (push_adjacent_spec v m fill border xs xe y d xl xr rest Hd) as (news & Hq & Hadj); try lia.
-  exists (written_by W y xl xr), (fill_range m y xl xr fill), (news ++ rest).
+  destruct (push_adjacent_spec v m p border xs xe y d xl xr rest Hd) as (news & Hq & Hadj); try lia.
+  exists (written_by W y xl xr), (tile_range m y xl xr (fun x => tile_at p x y)), (news ++ rest).
   split.
   - unfold step. fold xl xr. now rewrite Hq.
-  - split.
-    + exact (step_preserves W m xs xe y d rest Hinv xl xr news eq_refl eq_refl Hadj).
-    + exact (step_potential W m xs xe y d rest Hinv xl xr news eq_refl eq_refl Hadj).
+  - exact (step_sound W m xs xe y d rest Hinv xl xr news eq_refl eq_refl Hadj).
+Qed.
+
+(* one iteration, full invariant and potential: patterns whose stop condition is "the run shows the tile" *)
+Lemma step_inv W m xs xe y d rest : stops_on_tile p ->
+  inv W m ((xs, xe, y, d) :: rest) ->
+  exists W' m' wl', step v p border m (xs, xe, y, d) rest = Some (m', wl') /\ inv W' m' wl' /\
+                    potential W' wl' <= potential W ((xs, xe, y, d) :: rest) - 1.
+Proof.
+  intros Hplain [Hinv Hx].
+  set (xl := extend_left v m border xs y). set (xr := extend_right v m border xe y).
+  pose proof (head_view W m xs xe y d rest Hinv) as Hhv.
+  destruct (head_entry W m xs xe y d rest Hinv) as (Hse & Hd & _).
+  destruct (ext_left W m xs xe y d rest Hinv xl eq_refl) as (Hl & _).
+  destruct (ext_right W m xs xe y d rest Hinv xr eq_refl) as (Hr & _).
+  destruct (push_adjacent_spec v m p border xs xe y d xl xr rest Hd) as (news & Hq & Hadj); try lia.
+  exists (written_by W y xl xr), (tile_range m y xl xr (fun x => tile_at p x y)), (news ++ rest).
+  split.
+  - unfold step. fold xl xr. now rewrite Hq.
+  - split; [split|].
+    + exact (step_sound W m xs xe y d rest Hinv xl xr news eq_refl eq_refl Hadj).
+    + exact (step_x W m xs xe y d rest Hinv Hx Hplain xl xr news eq_refl eq_refl Hadj).
+    + exact (step_potential W m xs xe y d rest Hinv Hx Hplain xl xr news eq_refl eq_refl Hadj).
 Qed.
 
 Lemma unwritten_nonneg W : 0 <= unwritten W.
 Proof. unfold unwritten. apply count_rows_bounds. Qed.
 
 (* with enough fuel the loop ends, in a state satisfying the invariant with an empty work list *)
-Lemma loop_total : forall fuel W m wl,
+Lemma loop_total : stops_on_tile p -> forall fuel W m wl,
   inv W m wl -> potential W wl <= Z.of_nat fuel ->
-  exists W' m', flood_loop fuel v fill border m wl = Ok m' /\ inv W' m' [].
+  exists W' m', flood_loop fuel v p border m wl = Ok m' /\ inv W' m' [].
 Proof.
-  induction fuel as [|f IH]; intros W m wl Hinv Hpot.
+  intro Hplain. induction fuel as [|f IH]; intros W m wl Hinv Hpot.
   - destruct wl as [|e rest].
     + exists W, m. split; [reflexivity|exact Hinv].
     + exfalso. unfold potential in Hpot. cbn [length] in Hpot. pose proof (unwritten_nonneg W). lia.
   - destruct wl as [|[[[xs xe] y] d] rest].
     + exists W, m. split; [reflexivity|exact Hinv].
-    + destruct (step_inv W m xs xe y d rest Hinv) as (W1 & m1 & wl1 & Hs & Hinv1 & Hp1).
+    + destruct (step_inv W m xs xe y d rest Hplain Hinv) as (W1 & m1 & wl1 & Hs & Hinv1 & Hp1).
       cbn [flood_loop]. rewrite Hs. apply (IH W1); [exact Hinv1|].
       unfold seedt in *. lia.
 Qed.
 
 (* whatever the fuel: if the loop ends, it ends in such a state *)
-Lemma loop_partial : forall fuel W m wl m',
-  inv W m wl -> flood_loop fuel v fill border m wl = Ok m' -> exists W', inv W' m' [].
+Lemma loop_partial : stops_on_tile p -> forall fuel W m wl m',
+  inv W m wl -> flood_loop fuel v p border m wl = Ok m' -> exists W', inv W' m' [].
+Proof.
+  intro Hplain. induction fuel as [|f IH]; intros W m wl m' Hinv Hrun.
+  - destruct wl; [|discriminate]. cbn [flood_loop] in Hrun. exists W. congruence.
+  - destruct wl as [|[[[xs xe] y] d] rest].
+    + cbn [flood_loop] in Hrun. exists W. congruence.
+    + destruct (step_inv W m xs xe y d rest Hplain Hinv) as (W1 & m1 & wl1 & Hs & Hinv1 & _).
+      cbn [flood_loop] in Hrun. rewrite Hs in Hrun. exact (IH W1 m1 wl1 m' Hinv1 Hrun).
+Qed.
+
+(* the same for the soundness part alone, every pattern *)
+Lemma loop_partial_s : forall fuel W m wl m',
+  sinv W m wl -> flood_loop fuel v p border m wl = Ok m' -> exists W', sinv W' m' [].
 Proof.
   induction fuel as [|f IH]; intros W m wl m' Hinv Hrun.
   - destruct wl; [|discriminate]. cbn [flood_loop] in Hrun. exists W. congruence.
   - destruct wl as [|[[[xs xe] y] d] rest].
     + cbn [flood_loop] in Hrun. exists W. congruence.
-    + destruct (step_inv W m xs xe y d rest Hinv) as (W1 & m1 & wl1 & Hs & Hinv1 & _).
+    + destruct (step_sinv W m xs xe y d rest Hinv) as (W1 & m1 & wl1 & Hs & Hinv1).
       cbn [flood_loop] in Hrun. rewrite Hs in Hrun. exact (IH W1 m1 wl1 m' Hinv1 Hrun).
+Qed.
+
+Lemma sinv_init : sinv (fun _ _ => false) m0 [(sx, sx, sy, 0)].
+Proof.
+  constructor; try discriminate; auto.
+  intros xs xe y d [H|[]].
+  assert (xs = sx /\ xe = sx /\ y = sy /\ d = 0) as (-> & -> & -> & ->) by (repeat split; congruence).
+  split; [lia|]. split; [now left|]. intros i Hi. replace i with sx by lia. now apply region_seed.
 Qed.
 
 Lemma inv_init : inv (fun _ _ => false) m0 [(sx, sx, sy, 0)].
 Proof.
+  split; [exact sinv_init|].
   constructor; try discriminate; auto.
-  - intros xs xe y d [H|[]].
-    assert (xs = sx /\ xe = sx /\ y = sy /\ d = 0) as (-> & -> & -> & ->) by (repeat split; congruence).
-    split; [lia|]. split; [now left|]. intros i Hi. replace i with sx by lia. now apply region_seed.
   - intros xs xe y d [H|[]] Hd. exfalso. apply Hd. congruence.
   - right. exists sx, sx, 0. split; [now left|lia].
 Qed.
@@ -471,8 +535,8 @@ Proof.
 Qed.
 
 (* ---- what the final state says *)
-Lemma final_sound W m' : inv W m' [] ->
-  forall x y, pix m' x y <> pix m0 x y -> reg x y /\ pix m' x y = fill.
+Lemma final_sound W m' : sinv W m' [] ->
+  forall x y, pix m' x y <> pix m0 x y -> reg x y /\ pix m' x y = tile_at p x y.
 Proof.
   intros Hinv x y Hne. destruct (W x y) eqn:E.
   - split; [apply (i_wreg _ _ _ Hinv), E | apply (i_wfill _ _ _ Hinv), E].
@@ -480,23 +544,23 @@ Proof.
 Qed.
 
 Lemma final_complete W m' : inv W m' [] ->
-  (forall x y, reg x y -> pix m0 x y <> fill) ->
-  forall x y, reg x y -> pix m' x y = fill.
+  (forall x y, reg x y -> pix m0 x y <> tile_at p x y) ->
+  forall x y, reg x y -> pix m' x y = tile_at p x y.
 Proof.
-  intros Hinv Hnofill.
+  intros [Hinv Hx] Hnofill.
   assert (HW : forall x y, reg x y -> W x y = true).
   { induction 1 as [Ho|x y x' y' Hr IH Hadj Ho].
-    - destruct (i_seed _ _ _ Hinv) as [H|H]; [exact H|]. exfalso. exact (covered_nil _ _ H).
+    - destruct (i_seed _ _ _ Hx) as [H|H]; [exact H|]. exfalso. exact (covered_nil _ _ H).
     - pose proof (region_open _ _ _ _ _ _ _ Hr) as Hoxy.
       destruct Hadj as [(-> & [->| ->])|(-> & Hy)].
-      + rewrite <- (i_dich _ _ _ Hinv x y Hoxy Ho). exact IH.
-      + rewrite (i_dich _ _ _ Hinv (x - 1) y Ho) by (now replace (x - 1 + 1) with x by lia).
+      + rewrite <- (i_dich _ _ _ Hx x y Hoxy Ho). exact IH.
+      + rewrite (i_dich _ _ _ Hx (x - 1) y Ho) by (now replace (x - 1 + 1) with x by lia).
         now replace (x - 1 + 1) with x by lia.
       + assert (Hd : exists d', y' = y + d' /\ (d' = 1 \/ d' = -1)).
         { destruct Hy as [->| ->]; [exists 1|exists (-1)]; split; auto; lia. }
         destruct Hd as (d' & -> & Hd').
         pose proof (open0_view _ _ Ho) as Hv.
-        destruct (i_vert _ _ _ Hinv x y d' IH Hd' ltac:(lia)) as [Hc|Hc];
+        destruct (i_vert _ _ _ Hx x y d' IH Hd' ltac:(lia)) as [Hc|Hc];
           [|exfalso; exact (covered_nil _ _ Hc)].
         destruct (W x (y + d')) eqn:E; [reflexivity|exfalso].
         pose proof (i_unw _ _ _ Hinv _ _ E) as Hsame.
@@ -513,84 +577,113 @@ End Flood.
 
 (* ================================================================ the results for flood_fill *)
 
-Lemma flood_fill_loop fuel v m sx sy fill border m' :
-  flood_fill fuel v m sx sy fill border = Ok m' ->
-  m' = m \/ (open m v border sx sy /\ flood_loop fuel v fill border m [(sx, sx, sy, 0)] = Ok m').
+Lemma flood_fill_loop fuel v m sx sy p border m' :
+  flood_fill fuel v m sx sy p border = Ok m' ->
+  m' = m \/ (open m v border sx sy /\ flood_loop fuel v p border m [(sx, sx, sy, 0)] = Ok m').
 Proof.
   unfold flood_fill. destruct (in_view v sx sy) eqn:Ev; cbn [negb]; [|intro H; left; congruence].
   destruct (pix m sx sy =? border) eqn:Eb; [intro H; left; congruence|].
   intro H. right. split; [|exact H]. split; [exact Ev|now apply Z.eqb_neq].
 Qed.
 
-Lemma flood_terminates_aux fuel v m sx sy fill border :
+Lemma flood_fill_open fuel v m sx sy p border :
   open m v border sx sy ->
-  flood_fill fuel v m sx sy fill border = flood_loop fuel v fill border m [(sx, sx, sy, 0)].
+  flood_fill fuel v m sx sy p border = flood_loop fuel v p border m [(sx, sx, sy, 0)].
 Proof.
   intros [Hv Hb]. unfold flood_fill. rewrite Hv. cbn [negb]. apply Z.eqb_neq in Hb. now rewrite Hb.
 Qed.
 
-(* SOUNDNESS: every changed cell lies in the region of the seed and holds the fill attribute *)
-Theorem flood_sound fuel v m sx sy fill border m' :
-  covers m v -> flood_fill fuel v m sx sy fill border = Ok m' ->
-  forall x y, pix m' x y <> pix m x y -> region m v border sx sy x y /\ pix m' x y = fill.
+(* SOUNDNESS, every pattern (solid, tile, tile with background): every changed cell lies in the region of
+   the seed and holds the tile's attribute for its position *)
+Theorem flood_sound_pat fuel v m sx sy p border m' :
+  covers m v -> flood_fill fuel v m sx sy p border = Ok m' ->
+  forall x y, pix m' x y <> pix m x y -> region m v border sx sy x y /\ pix m' x y = tile_at p x y.
 Proof.
   intros Hcov Hrun x y Hne.
   destruct (flood_fill_loop _ _ _ _ _ _ _ _ Hrun) as [->|(Hseed & Hloop)]; [contradiction|].
-  destruct (loop_partial v fill border m sx sy Hseed fuel _ _ _ _ (inv_init v fill border m sx sy Hcov Hseed) Hloop)
+  destruct (loop_partial_s v p border m sx sy fuel _ _ _ _ (sinv_init v p border m sx sy Hcov Hseed) Hloop)
     as (W & Hinv).
-  exact (final_sound v fill border m sx sy W m' Hinv x y Hne).
+  exact (final_sound v p border m sx sy W m' Hinv x y Hne).
 Qed.
 
 (* no-op cases: seed outside the viewport or on a border cell *)
-Theorem flood_noop fuel v m sx sy fill border :
-  in_view v sx sy = false \/ pix m sx sy = border -> flood_fill fuel v m sx sy fill border = Ok m.
+Theorem flood_noop_pat fuel v m sx sy p border :
+  in_view v sx sy = false \/ pix m sx sy = border -> flood_fill fuel v m sx sy p border = Ok m.
 Proof.
   unfold flood_fill. intros [H|H].
   - now rewrite H.
   - destruct (negb (in_view v sx sy)); [reflexivity|]. apply Z.eqb_eq in H. now rewrite H.
 Qed.
 
-(* TERMINATION: (width+2)*(height+2)*2 iterations suffice *)
-Theorem flood_terminates v m sx sy fill border :
-  covers m v -> exists m', flood_fill (paint_fuel v) v m sx sy fill border = Ok m'.
+(* TERMINATION for patterns whose stop condition is "the run shows the tile":
+   (width+2)*(height+2)*2 iterations suffice *)
+Theorem flood_terminates_pat fuel v m sx sy p border :
+  stops_on_tile p -> covers m v -> (paint_fuel v <= fuel)%nat ->
+  exists m', flood_fill fuel v m sx sy p border = Ok m'.
 Proof.
-  intro Hcov. unfold flood_fill.
+  intros Hplain Hcov Hfuel. unfold flood_fill.
   destruct (in_view v sx sy) eqn:Ev; cbn [negb]; [|now exists m].
   destruct (pix m sx sy =? border) eqn:Eb; [now exists m|].
   assert (Hseed : open m v border sx sy) by (split; [exact Ev|now apply Z.eqb_neq]).
-  destruct (loop_total v fill border m sx sy Hseed (paint_fuel v) _ _ _
-              (inv_init v fill border m sx sy Hcov Hseed) (potential_init v sx sy))
+  pose proof (potential_init v sx sy) as Hp.
+  destruct (loop_total v p border m sx sy Hseed Hplain fuel _ _ _
+              (inv_init v p border m sx sy Hcov Hseed) ltac:(lia))
     as (W & m' & Hloop & _).
   now exists m'.
 Qed.
 
-(* COMPLETENESS: if no cell of the region has the fill attribute beforehand, the whole region is filled *)
+(* COMPLETENESS for the same patterns: if no cell of the region shows the tile beforehand, the whole region
+   is painted with the tile *)
+Theorem flood_complete_pat fuel v m sx sy p border m' :
+  stops_on_tile p -> covers m v -> flood_fill fuel v m sx sy p border = Ok m' ->
+  (forall x y, region m v border sx sy x y -> pix m x y <> tile_at p x y) ->
+  forall x y, region m v border sx sy x y -> pix m' x y = tile_at p x y.
+Proof.
+  intros Hplain Hcov Hrun Hnofill x y Hr.
+  assert (Hs : open m v border sx sy) by (clear - Hr; induction Hr; assumption).
+  rewrite (flood_fill_open fuel v m sx sy p border Hs) in Hrun.
+  destruct (loop_partial v p border m sx sy Hs Hplain fuel _ _ _ _
+              (inv_init v p border m sx sy Hcov Hs) Hrun) as (W & Hinv).
+  exact (final_complete v p border m sx sy W m' Hinv Hnofill x y Hr).
+Qed.
+
+(* ---- the solid case *)
+Lemma solid_stops fill : stops_on_tile (solid_pat fill).
+Proof. now apply stops_on_tile_solid. Qed.
+
+Theorem flood_sound fuel v m sx sy fill border m' :
+  covers m v -> flood_fill fuel v m sx sy (solid_pat fill) border = Ok m' ->
+  forall x y, pix m' x y <> pix m x y -> region m v border sx sy x y /\ pix m' x y = fill.
+Proof.
+  intros Hcov Hrun x y Hne.
+  destruct (flood_sound_pat _ _ _ _ _ _ _ _ Hcov Hrun x y Hne) as [Hr Hp].
+  split; [exact Hr|]. now rewrite tile_at_solid in Hp.
+Qed.
+
+Theorem flood_noop fuel v m sx sy fill border :
+  in_view v sx sy = false \/ pix m sx sy = border ->
+  flood_fill fuel v m sx sy (solid_pat fill) border = Ok m.
+Proof. apply flood_noop_pat. Qed.
+
+Theorem flood_terminates v m sx sy fill border :
+  covers m v -> exists m', flood_fill (paint_fuel v) v m sx sy (solid_pat fill) border = Ok m'.
+Proof. intro Hcov. apply flood_terminates_pat; [apply solid_stops|exact Hcov|lia]. Qed.
+
 Theorem flood_complete fuel v m sx sy fill border m' :
-  covers m v -> flood_fill fuel v m sx sy fill border = Ok m' ->
+  covers m v -> flood_fill fuel v m sx sy (solid_pat fill) border = Ok m' ->
   (forall x y, region m v border sx sy x y -> pix m x y <> fill) ->
   forall x y, region m v border sx sy x y -> pix m' x y = fill.
 Proof.
   intros Hcov Hrun Hnofill x y Hr.
-  destruct (flood_fill_loop _ _ _ _ _ _ _ _ Hrun) as [->|(Hseed & Hloop)].
-  - (* nothing ran and m' = m: the hypothesis makes every region cell differ from fill, but then the loop
-       would have run; derive the contradiction from the seed being open *)
-    exfalso.
-    assert (Hs : open m v border sx sy) by (clear - Hr; induction Hr; assumption).
-    pose proof (flood_terminates_aux fuel v m sx sy fill border Hs) as Hq.
-    rewrite Hq in Hrun.
-    destruct (loop_partial v fill border m sx sy Hs fuel _ _ _ _
-                (inv_init v fill border m sx sy Hcov Hs) Hrun) as (W & Hinv).
-    apply (Hnofill x y Hr).
-    exact (final_complete v fill border m sx sy W m Hinv Hnofill x y Hr).
-  - destruct (loop_partial v fill border m sx sy Hseed fuel _ _ _ _
-                (inv_init v fill border m sx sy Hcov Hseed) Hloop) as (W & Hinv).
-    exact (final_complete v fill border m sx sy W m' Hinv Hnofill x y Hr).
+  rewrite <- (tile_at_solid fill x y).
+  apply (flood_complete_pat _ _ _ _ _ _ _ _ (solid_stops fill) Hcov Hrun); [|exact Hr].
+  intros x0 y0 Hr0. rewrite tile_at_solid. now apply Hnofill.
 Qed.
 
 (* ---- the statement level: paint_ with its argument checks *)
 Lemma paint_ok text_mode num_attr fg v m x y c b m' :
   paint text_mode num_attr fg v m x y c b = Ok m' ->
-  flood_fill (paint_fuel v) v m x y (fill_of num_attr fg c) (border_of num_attr fg c b) = Ok m'.
+  flood_fill (paint_fuel v) v m x y (solid_pat (fill_of num_attr fg c)) (border_of num_attr fg c b) = Ok m'.
 Proof.
   unfold paint, fill_of, border_of, border_index, fill_index.
   destruct text_mode; [discriminate|].
@@ -610,7 +703,21 @@ Proof.
            | |- context [if ?t then _ else _] => destruct t; cbn [bind]; try discriminate
            end;
     match goal with
-    | |- flood_fill _ ?v ?m ?x ?y ?f ?bd <> _ =>
+    | |- flood_fill _ ?v ?m ?x ?y (solid_pat ?f) ?bd <> _ =>
         destruct (flood_terminates v m x y f bd Hcov) as (m' & ->); discriminate
     end.
+Qed.
+
+(* tiled statement: when it succeeds it is the flood fill with the given tile / background row *)
+Lemma paint_tile_ok text_mode num_attr fg v m x y tile b bg m' :
+  paint_tile text_mode num_attr fg v m x y tile b bg = Ok m' ->
+  flood_fill (tile_fuel v) v m x y (mkPat false tile bg)
+             (attr_index num_attr fg (match b with Some bv => bv | None => -1 end)) = Ok m'.
+Proof.
+  unfold paint_tile.
+  destruct text_mode; [discriminate|].
+  destruct b as [bv|]; cbn [bind];
+    repeat match goal with
+           | |- context [if ?t then _ else _] => destruct t; cbn [bind]; try discriminate
+           end; auto.
 Qed.
